@@ -10,6 +10,7 @@ import (
 	"strconv"
 	"strings"
 	"sync"
+	"sync/atomic"
 	"testing"
 	"testing/synctest"
 	"time"
@@ -272,15 +273,15 @@ func runFullRT(c *vu.Case) {
 		// peers of a non-empty table never answer: every request lasts until its context ends
 		w.sender.Auto = func(pk *simnet.Parked) (simnet.Result, bool) { return simnet.Result{CtxErr: true}, true }
 		var err error
-		pan := 0
-		returned := false
+		var pan atomic.Int32
+		var returned atomic.Bool
 		done := make(chan struct{})
 		kc := cid.NewCidV1(cid.Raw, keyMH)
 		go func() {
 			defer close(done)
 			defer func() {
 				if r := recover(); r != nil {
-					pan = 1
+					pan.Store(1)
 				}
 			}()
 			switch a["op"] {
@@ -308,18 +309,21 @@ func runFullRT(c *vu.Case) {
 			case "closest":
 				_, err = w.d.GetClosestPeers(ctx, key)
 			}
-			returned = true
+			returned.Store(true)
 		}()
 		synctest.Wait()
-		for i := 0; i < 5 && !returned && pan == 0; i++ {
+		for i := 0; i < 5 && !returned.Load() && pan.Load() == 0; i++ {
 			time.Sleep(time.Minute)
 			synctest.Wait()
 		}
 		b := 0
-		if returned {
+		var e error
+		if returned.Load() {
 			b = 1
+			<-done
+			e = err
 		}
-		out = fmt.Sprintf("returned=%d panic=%d err=%s", b, pan, fErr(err))
+		out = fmt.Sprintf("returned=%d panic=%d err=%s", b, pan.Load(), fErr(e))
 	case "getvalue":
 		// every peer of the table answers at once with its scripted record; PUT_VALUEs are logged with the state
 		// of their context at the moment they are sent
